@@ -255,6 +255,9 @@ func Bisim(a, b side, kind Kind, visited map[string]bool, path string, opaque bo
 		if !opaque {
 			return fmt.Sprintf("at %s: unresolvable reference: in:%q out:%q", path, ba, bb)
 		}
+		if ba != "" && kind != KSchema {
+			return "" // only unresolvable *schema* references must stay verbatim (C08)
+		}
 		if ba != bb {
 			return fmt.Sprintf("at %s: unresolvable reference not kept verbatim: in:%q (at %s) out:%q (at %s)", path, ba, a2.loc, bb, b2.loc)
 		}
